@@ -23,9 +23,12 @@ func (v *hasSideEffectVisitor) Visit(node ast.Node) (w ast.Visitor) {
 	}
 	switch n := node.(type) {
 	case *ast.CallExpr:
-		if _, isSig := v.info.TypeOf(n.Fun).(*types.Signature); isSig { // skip conversions
-			v.hasSideEffect = true
-			return nil
+		// Skip conversions. The function may be a value of a named function type.
+		if t := v.info.TypeOf(n.Fun); t != nil {
+			if _, isSig := t.Underlying().(*types.Signature); isSig {
+				v.hasSideEffect = true
+				return nil
+			}
 		}
 	case *ast.UnaryExpr:
 		if n.Op == token.ARROW {
